@@ -161,9 +161,26 @@ fn worker() -> Result<(), String> {
             continue;
         }
         let probes = probe_defs(&def);
+        // decoys: definitions of the same keyword that are compiled but never evaluated (an untaken branch, the
+        // body of a procedure that is never called, a form rejected by the compiler after the definition) must
+        // not replace the transformer
+        let decoys: Vec<Cell> = match def.collect_vec().get(1) {
+            Some(Cell::Symbol(kw)) => [
+                format!("(if #f (define-syntax {} (syntax-rules () ((_ . r) 'decoy-branch))) 0)", kw),
+                format!("(define (zz-never-called) (define-syntax {} (syntax-rules () ((_ . r) 'decoy-body))) 0)", kw),
+                format!("((lambda () (define-syntax {} (syntax-rules () ((_ . r) 'decoy-rejected))) (if)))", kw),
+            ]
+            .iter()
+            .filter_map(|t| parse_one(t).ok())
+            .collect(),
+            _ => vec![],
+        };
         let mut install = |s: &mut Session| {
             for p in &probes {
                 let _ = s.eval(p, &cfg);
+            }
+            for d in &decoys {
+                let _ = s.eval(d, &cfg);
             }
         };
         install(&mut s);
